@@ -1,0 +1,7 @@
+//go:build !verif
+
+package internal
+
+// verifGate is a scheduling point used by the verification harness (build tag
+// `verif`). Without the tag it is an empty function.
+func verifGate(string) {}
